@@ -102,6 +102,39 @@ def future_source(body, pollcs):
 POLL_FN = 'core::future::poll_fn::poll_fn'
 
 
+PIN_FORMS = ('core::pin::Pin::new_unchecked', 'core::pin::Pin::new', 'core::pin::Pin::as_mut')
+
+
+def _future_creator(body, el):
+    """the call that created the future raced by a select! branch: directly (`f()`), or a future created earlier, pinned
+    and raced by reference (`let d = sleep(..); pin!(d); select! { _ = &mut d => .. }`)"""
+    for _ in range(8):
+        es = sem(body, el)
+        if es.kind == 'call' and es.cs.is_(INTO_FUTURE, *PIN_FORMS) and es.cs.args:
+            el = es.cs.args[0]
+            continue
+        if es.kind == 'call':
+            return es.cs
+        if es.kind == 'place' and not es.proj and es.local is not None:
+            d = body.single_def(es.local)
+            if d is None:
+                return None
+            if d[0] == 'call':
+                if d[2].is_(INTO_FUTURE, *PIN_FORMS) and d[2].args:
+                    el = d[2].args[0]
+                    continue
+                return d[2]
+            rv = d[2]['rv']
+            if rv['r'] == 'use':
+                el = rv['a'][0]
+                continue
+            if rv['r'] in ('ref', 'copyderef') and not rv['pl']['p']:
+                el = {'k': 'copy', 'pl': rv['pl']}
+                continue
+        return None
+    return None
+
+
 def select_futures(body, pollfn_cs):
     """for the `poll_fn(closure)` call a tokio::select! expands to: the call sites that created the raced futures,
     in branch order (None where not resolvable)"""
@@ -134,10 +167,7 @@ def select_futures(body, pollfn_cs):
             if tup is not None and len(tup['a']) >= 1:
                 futs = []
                 for el in tup['a']:
-                    es = sem(body, el)
-                    if es.kind == 'call' and es.cs.is_(INTO_FUTURE):
-                        es = sem(body, es.cs.args[0])
-                    futs.append(es.cs if es.kind == 'call' else None)
+                    futs.append(_future_creator(body, el))
                 if any(f is not None for f in futs):
                     out = futs
                     break
@@ -1497,6 +1527,8 @@ def always_passes(body, start, sinks, escapes=()):
     through one of the `escapes` (edges on which doing nothing is the specified behaviour).  Returns (ok, witnesses):
     the return blocks reachable when sinks and escapes are removed."""
     avoid = set(sinks) | set(escapes)
+    if start in avoid:
+        return (True, [])
     rs = body.reach_set(start, avoid=avoid) | {start}
     leak = [n for n in rs if n[0] == 'b' and body.blocks[n[1]]['term']['t'] == 'return']
     return (not leak, leak)
@@ -1526,6 +1558,31 @@ def is_error_of(body, o, callee, _d=0):
     return True
 
 
+def may_be_error_of(body, o, callee, _d=0):
+    """some alternative of the operand is the error of a call to `callee`, possibly converted on the way by `?` / From /
+    Into / `Err(..)` re-wrapping in helper functions (a necessary condition for "the error returned is that error" on
+    a value merged from several error sources)"""
+    if _d > 6:
+        return False
+    for a in sem_alts(body, o):
+        j = ''.join(a.proj)
+        if a.kind == 'call':
+            cs = a.cs
+            if (':Err' in j or '<residual>' in j) and cs.is_(callee):
+                return True
+            if (cs.callee or '').endswith('Instrument::instrument') and cs.args and (':Err' in j or '<residual>' in j):
+                inner = sem(body, cs.args[0])
+                if inner.kind == 'call' and inner.cs.is_(callee):
+                    return True
+            if (cs.is_(FROM_RESIDUAL) or (cs.declared or '') in ('core::convert::From::from', 'core::convert::Into::into')) and cs.args:
+                if may_be_error_of(body, cs.args[0], callee, _d + 1):
+                    return True
+        elif a.kind == 'agg' and a.extra and a.extra.get('variant') == 'Err' and a.extra.get('a'):
+            if may_be_error_of(body, a.extra['a'][0], callee, _d + 1):
+                return True
+    return False
+
+
 def is_result_of(body, o, callee):
     """operand / place is the (awaited) result value of a call to `callee`, possibly merged from several such calls and
     possibly wrapped by tracing's `.instrument(span)` - whatever the variable holding it is called"""
@@ -1544,3 +1601,42 @@ def is_result_of(body, o, callee):
                 continue
         return False
     return True
+
+
+def builder_fields(body, adt):
+    """for a by-value builder method `fn m(self, ..) -> Self`: field name -> 'kept' (the value of the same field of self),
+    'param' (derived from another parameter only) or 'other'; None if the method does not have one of the two recognised
+    shapes (`Self { x, ..self }` / `self.x = x; self`)"""
+    P = body.prog
+    a = P.adt(adt)
+    names = [f['name'] for v in a['variants'] for f in v['fields']]
+    xs = exits(body)
+    if len(xs) != 1:
+        return None
+    x = xs[0]
+    out = {}
+    def classify(o):
+        cl = body.op_closure(o)
+        params = {('l', i) for i in range(2, len(body.sig_in) + 1)}
+        if ('l', 1) not in cl and (cl & params or const_val(body, o) is not None):
+            return 'param'
+        return 'other'
+    if x['kind'] == 'agg' and norm(x['adt']) == adt and len(x['rv']['a']) == len(names):
+        for i, (nm, o) in enumerate(zip(names, x['rv']['a'])):
+            s = sem(body, o)
+            if s.kind == 'place' and s.local == 1 and len(s.proj) == 1 and s.proj[0].startswith('field:%d:' % i):
+                out[nm] = 'kept'
+            else:
+                out[nm] = classify(o)
+        return out
+    if x['kind'] == 'copy' and x['sem'].kind == 'place' and x['sem'].local == 1 and not x['sem'].proj:
+        out = {nm: 'kept' for nm in names}
+        for i, s in body.assigns():
+            pl = s['pl']
+            if pl['l'] == 1:
+                if not pl['p'] or not pl['p'][0].startswith('field:'):
+                    return None
+                nm = pl['p'][0].split(':', 2)[2]
+                out[nm] = classify(s['rv']['a'][0]) if s['rv']['r'] == 'use' and len(pl['p']) == 1 else 'other'
+        return out
+    return None
